@@ -342,8 +342,12 @@ def search(ctx, deep):
         d = k.get('replay')
         if d and 'expr' in d and d.get('kind') != 'struct': cases.append({'kind': d['kind'], 'e': to_tuple(d['expr']), 'atoms': d.get('atoms'), 'fam': 'known'})
     fams = boolean_families(ctx, deep)
+    # the largest size of every family goes to one position per kind of context in the thorough tier (first filter, element,
+    # lambda body, keyword argument); the deep search after a broken run and all smaller sizes use all seven positions
+    top = {'andornot': 5, 'full': 6, 'full-not': 4, 'isnone': 4, 'const': 4}
     for fam, e in fams:
-        for kind in L.POSITIONS:
+        few = ctx.thorough and not deep and L.leaves(e) >= top.get(fam, 99)
+        for kind in (('filter', 'elt', 'lambda', 'kwarg') if few else L.POSITIONS):
             cases.append({'kind': kind, 'e': e, 'atoms': None, 'fam': fam})
     n_exh = len(cases)
     # random beyond the bound
@@ -659,7 +663,7 @@ ASSUMPTIONS = [
     'CPython 3.12.1 only',
 ]
 RULE = ('exhaustive: every expression shape over and/or/not/if-else/== (one distinct atom per leaf) up to 3 leaves with a `not` allowed on every node (4 in the thorough tier), up to 5 (6) leaves '
-        'without `not`, and/or/not only up to 4 (5) leaves, leaves decorated with is None / is not None, one leaf replaced by each constant; each at 7 positions (filter of the first / first-of-two / '
+        'without `not`, and/or/not only up to 4 (5) leaves, leaves decorated with is None / is not None, one leaf replaced by each constant; each at 7 positions (the largest size of a family in the thorough tier: 4 positions) (filter of the first / first-of-two / '
         'second for-clause, element, lambda body, positional call argument, keyword argument); random beyond the bound (5-9 leaves, repeated atoms, constants, != , rich atoms); '
         'random + fixed queries over the non-boolean grammar; a sweep of 4000 (30000) short-lived lambdas/generators built with eval, decompiled and dropped one after the other, each compared with its own source. non-trivial = distinct (position, expression) with at least one operator on which the decompiler returned a tree, plus '
         'distinct model-tie cases where the real decompiler returned a tree; correspondence cases = reference-semantics tables + model ties')
@@ -675,7 +679,7 @@ LEVEL_TEXT = ('Machine-checked proofs (Coq 8.16.1, closed under the global conte
               '((xa if t1 and ... and tn else xb) in element position); analyze_jumps is characterised for arbitrary streams (or_jumps_classified). '
               'NOT proved: nesting depth >= 4, `not` over a group, positions other than the filter. '
               'The full and/or/not round trip is REFUTED (6-operand and/or expression of depth 5: a stale targets[pos] limit in process_target; or_jumps is right there), as are most combinations of if-else and the '
-              'constant operands: 17 recorded findings with vm_compute witnesses in Findings/C03.v (the == operand class was repaired in /repo 145f804; the model follows the repaired code). '
+              'constant operands: 19 recorded findings (key = position class x failure kind x defect family of the minimal failing core) with vm_compute witnesses in Findings/C03.v (the == operand class was repaired in /repo 145f804; the model follows the repaired code). '
               '(3) C03_cache_own_tree: decompile()\'s address-keyed tree cache returns every caller the tree of its own code object for all histories and allocator behaviours, '
               'as long as get_codeobject_id pins the objects - read from the source on every run (Gen/C03CacheKey.v) and exercised by a sweep of short-lived eval-built code objects.')
 LEVEL_NOTE = ('Partial: the proof covers the checker and a sub-family of the round trip; the statement for the whole accepted grammar rests on exhaustive bounded + random validation of the real decompiler '
